@@ -166,7 +166,7 @@ Inductive lop : Type :=
 | LReply.               (* close(sync) *)
 
 Definition leave_closure_seq : list lop :=
-  [LDelClient; LDealerRemove; LDealerRecv; LDealerPubs; LBrokerRemove; LReply].
+  [LDelClient; LBrokerRemove; LDealerRemove; LDealerRecv; LDealerPubs; LReply].
 
 (** ** Local states *)
 
@@ -351,7 +351,12 @@ Definition lop_act (cl : list nat) (j : nat) (sh pubs : bool) (o : lop) (rest : 
       ARecv CReplyRealm (fun v =>
         RmLeave cl j sh (match v with Some (MPubs b) => b | _ => false end) rest)
   | LDealerPubs => if pubs then ASend CMetaIn MPub next else ATau next
-  | LBrokerRemove => ASend CBrokerAct (MRemove j) next
+  | LBrokerRemove =>
+      (* since /repo 9df542e the broker comes first: the shutdown branch is decided here *)
+      if negb sh then ASend CBrokerAct (MRemove j) next
+      else
+        if fx_peers fx then ATau (RmLeave cl j sh false [LMarkShutdown; LReply])
+        else ATau (RmLeave cl j sh false [LReply])
   | LReply => ACloseOnce [CReplyLeave j] next
   end.
 
